@@ -275,6 +275,15 @@ def check_sparse(case, rec=None):
         if not ok:
             return [exc_failure("sparse_localmaxlabel", n)]
         cmp("sparse_localmaxlabel", n, lab)
+    # the data to label may sit under another name and in another number type, next to an unrelated 'intensity'
+    other = np.ascontiguousarray(v[::-1].copy())
+    alt = v.astype(np.float64) if (v < 0).any() or (v != np.rint(v)).any() or v.max() > 65535 or case["mseed"] % 2 else v.astype(np.uint16)
+    fr2 = sparseframe.sparse_frame(i, j, (ns, nf), pixels={"intensity": other, "signal": alt})
+    ok, n = guard(sparseframe.sparse_localmax, fr2, "lm2", "signal")
+    if ok:
+        cmp("sparseframe.sparse_localmax(data_name='signal', %s)" % alt.dtype, n, fr2.pixels["lm2"])
+    else:
+        fails.append(exc_failure("sparse_localmax(data_name=...)", n))
     fr = sparseframe.sparse_frame(i, j, (ns, nf), pixels={"intensity": v})
     ok, n = guard(sparseframe.sparse_localmax, fr)
     if ok:
